@@ -80,6 +80,8 @@ def analyse_grow(expr: ast.AST, arr: str, scope_funcs: Dict[str, ast.FunctionDef
         ax = kw(expr, "axis")
         return {"idiom": n, "old_first": old_first, "fill": fill_of_fresh(fresh), "amount": canon(fd) if fd is not None else None,
                 "axis0": n == "np.vstack" or ax is None or const_num(ax) == 0, "fresh": fresh, "copy_bound": "all"}
+    if n == "np.resize" and expr.args and canon(expr.args[0]) == arr:
+        return {"idiom": "resize", "old_first": True, "fill": "repeated copies of the old rows", "amount": "?", "axis0": True, "fresh": None, "copy_bound": "all"}
     # (b) pad
     if n == "np.pad" and len(expr.args) >= 2 and canon(expr.args[0]) == arr:
         spec = expr.args[1]
